@@ -466,6 +466,18 @@ def run_graphs(tier, rep, ev, R):
     ev.cov["folder_graphs_from_tlc"] = len(graphs)
     ev.cov["folder_graph_cases"] = len(cases)
     validate("C06", traces, rep, ev, spec="TraceFolder", cfg="TraceFolder.cfg", classify_fn=classify_graph, origins=origins, batch=3000)
+    # binding control: a recorded trace with one field corrupted (pipeline reversed / another main output / a packed index moved)
+    # must be rejected by TraceFolder, or the validation above constrains nothing
+    src = next((t for t in traces if t[0]["n"] >= 3 and t[-1]["order"] != list(reversed(t[-1]["order"]))), None)
+    if src is not None:
+        bad = []
+        for field, val in (("order", list(reversed(src[-1]["order"]))), ("main", (src[-1]["main"] + 1) % src[0]["n"]),
+                           ("packed", [(src[-1]["packed"][0] + 1) % src[0]["n"]] if src[-1]["packed"] else [0])):
+            bad.append(src[:-1] + [dict(src[-1], **{field: val})])
+        acc, _res = tlc.validate_traces("TraceFolder", "TraceFolder.cfg", bad, extra_env={"EXPLAIN": "0"}, workers=1)
+        ev.cov["binding_control_folder"] = {"corrupted_traces": len(bad), "accepted": len(acc)}
+        if acc:
+            raise MachineryError(f"TraceFolder accepts a corrupted trace (fields {sorted(acc)}): the binding is vacuous")
 
 
 def run(tier, rep, ev):
